@@ -1,13 +1,21 @@
 #!/bin/bash
-# Re-runs every stored seed against the CURRENT quick check of its property (tools/mutant.py) and records the verdicts
+# Re-runs every stored seed against the CURRENT quick check of its property (tools/mutant.py) and records the verdicts.
+# usage: tools/seed_matrix.sh [nworkers]   (seeds are dealt round-robin to the workers; mutant.py works on private copies)
 out=/verif/seeded/detection_matrix.txt
-: > $out.tmp
-for d in /verif/seeded/*/; do
-  s=$(basename $d); id=${s:0:3}
-  r=$(python3 /verif/tools/mutant.py $d/patch.diff $id quick 2>&1)
-  verdict=$(echo "$r" | grep -o "exit [0-9] ([A-Za-z]*)" | tail -1)
-  key=$(echo "$r" | grep -m1 "^VIOLATION" | grep -o "key=[^ ]*")
-  nk=$(echo "$r" | grep -c "^VIOLATION")
-  echo "$s $id quick -> $verdict ; violation keys: $nk ; first: $key" >> $out.tmp
-done
-mv $out.tmp $out
+n=${1:-1}
+seeds=($(ls -d /verif/seeded/*/ | xargs -n1 basename))
+worker() {
+  k=$1; : > $out.part$k
+  for i in "${!seeds[@]}"; do
+    [ $((i % n)) -eq $k ] || continue
+    s=${seeds[$i]}; id=${s:0:3}
+    r=$(python3 /verif/tools/mutant.py /verif/seeded/$s/patch.diff $id quick 2>&1)
+    verdict=$(echo "$r" | grep -o "exit [0-9] ([A-Za-z]*)" | tail -1)
+    key=$(echo "$r" | grep -m1 "^VIOLATION" | grep -o "key=[^ ]*")
+    nk=$(echo "$r" | grep -c "^VIOLATION")
+    echo "$s $id quick -> $verdict ; violation keys: $nk ; first: $key" >> $out.part$k
+  done
+}
+for k in $(seq 0 $((n-1))); do worker $k & done
+wait
+cat $out.part* | sort > $out; rm -f $out.part* $out.tmp
